@@ -13,6 +13,9 @@
 (*   fn id(x) { x }                        fn apply(x: a, f: fn(a) -> b)   *)
 (*   fn map(l: List(a), f: fn(a) -> b) -> List(b)   fn add(a: Int, b: Int) *)
 (*   fn mk_ok(x: a, e: b) -> Result(a, b)    fn mk_err(x: a, e: b) -> ...  *)
+(*   type M { M(Int, key: String, value: Float) }   (unlabelled + labelled) *)
+(*   fn wrap(item) { item }   fn item() { wrap(1) }   (a parameter spelled  *)
+(*   like a top-level function that calls back: wrap must stay generic)     *)
 (* and of generated functions g1..gn whose signatures (parameter types,    *)
 (* result type) are chosen up front, so calls may refer forwards,          *)
 (* backwards and to themselves (recursion groups); return types are never  *)
@@ -25,7 +28,7 @@ EXTENDS Naturals, Sequences, FiniteSets, TLC, Json
 
 CONSTANTS Budget, NFuns, Sim, Masked
 
-D0 == {"Int", "Float", "String", "Bool", "Nil", "T"}
+D0 == {"Int", "Float", "String", "Bool", "Nil", "T", "M"}
 L(s)     == "List(" \o s \o ")"
 Tu(s, t) == "#(" \o s \o ", " \o t \o ")"
 R(s, t)  == "Result(" \o s \o ", " \o t \o ")"
@@ -87,7 +90,7 @@ Prods(h) ==
     { P(1, "let_in", <<T("{"), Sym("MARK", "", 0), T("let"), BIND(s), T("="), EX(s), Sym("COMMIT", "", 0), EX(ty), Sym("POPMARK", "", 0), T("}")>>) : s \in Pick(D0) }
     \cup { P(1, "case", <<T("case"), EX(s), T("{"), Sym("MARK", "", 0), PA(s), Sym("COMMIT", "", 0), T("->"), EX(ty), Sym("POPMARK", "", 0),
                           T("_"), T("->"), EX(ty), T("}")>>) : s \in Pick(D1 \ Funs) }
-    \cup { P(1, "id_call", <<T("id"), T("("), EX(ty), T(")")>>) }
+    \cup { P(1, "id_call", <<T("id"), T("("), EX(ty), T(")")>>), P(1, "wrap_call", <<T("wrap"), T("("), EX(ty), T(")")>>) }
     \* calls to generated functions: to earlier ones (acyclic), and to itself / later ones (recursion groups)
     \cup { P(1, "call_gen_back", <<T("g" \o ToString(k)), T("(")>> \o Args(k) \o <<T(")")>>) : k \in {j \in FunsReturning(ty) : j < cur} }
     \cup { P(1, "call_gen_rec", <<T("g" \o ToString(k)), T("(")>> \o Args(k) \o <<T(")")>>) : k \in {j \in FunsReturning(ty) : j >= cur} }
@@ -106,7 +109,8 @@ Prods(h) ==
                                 P(1, "add_fn", <<T("add"), T("("), EX("Int"), T(","), EX("Int"), T(")")>>),
                                 P(1, "pipe_add", <<GR("Int"), T("|>"), T("add"), T("("), EX("Int"), T(")")>>) }
             [] ty = "Float" -> { P(0, "float", <<T("1.5")>>), P(1, "fmul", <<GR("Float"), T("*."), GR("Float")>>) }
-            [] ty = "String" -> { P(0, "string", <<T("\"s\"")>>), P(1, "concat", <<GR("String"), T("<>"), GR("String")>>), P(1, "field_b", <<GR("T"), T("."), T("b")>>) }
+            [] ty = "String" -> { P(0, "string", <<T("\"s\"")>>), P(1, "concat", <<GR("String"), T("<>"), GR("String")>>), P(1, "field_b", <<GR("T"), T("."), T("b")>>),
+                                  P(1, "field_key", <<GR("M"), T("."), T("key")>>) }
             [] ty = "Bool" -> { P(0, "true", <<T("True")>>), P(1, "less", <<GR("Int"), T("<"), GR("Int")>>), P(1, "fless", <<GR("Float"), T("<."), GR("Float")>>) }
                               \cup { P(1, "equal", <<GR(s), T("=="), GR(s)>>) : s \in Pick(D0) }
             [] ty = "Nil" -> { P(0, "nil", <<T("Nil")>>) }
@@ -114,6 +118,8 @@ Prods(h) ==
                              P(1, "ctor_T_labels", <<T("T"), T("("), T("b"), T(":"), EX("String"), T(","), T("a"), T(":"), EX("Int"), T(")")>>) }
             \* `[]`, `Ok(x)`, `Error(e)` alone leave a type variable open, so they are only generated where the other
             \* component is pinned: lists always have an element, results are built by the prelude's mk_ok / mk_err
+            [] ty = "M" -> { P(0, "ctor_M", <<T("M"), T("("), EX("Int"), T(","), T("key"), T(":"), EX("String"), T(","), T("value"), T(":"), EX("Float"), T(")")>>),
+                             P(1, "ctor_M_swapped", <<T("M"), T("("), EX("Int"), T(","), T("value"), T(":"), EX("Float"), T(","), T("key"), T(":"), EX("String"), T(")")>>) }
             [] ty \in Lists -> { P(0, "list_one", <<T("["), EX(ElemOf(ty)), T("]")>>),
                                  P(1, "list_spread", <<T("["), EX(ElemOf(ty)), T(","), T(".."), EX(ty), T("]")>>) }
                                \cup { P(1, "map_lambda", <<T("map"), T("("), EX(L(s)), T(","), T("fn"), T("("), Sym("MARK", "", 0), BIND(s), Sym("COMMIT", "", 0), T(")")>>
@@ -139,12 +145,15 @@ Prods(h) ==
             [] ty \in Boxes -> { P(1, "p_box", <<T("Box"), T("("), PA(ElemOf(ty)), T(")")>>), P(1, "p_box_label", <<T("Box"), T("("), T("inner"), T(":"), PA(ElemOf(ty)), T(")")>>) }
             [] ty = "T" -> { P(1, "p_T", <<T("T"), T("("), T("a"), T(":"), PA("Int"), T(","), T("b"), T(":"), PA("String"), T(")")>>),
                              P(1, "p_T_spread", <<T("T"), T("("), PA("Int"), T(","), T(".."), T(")")>>) }
+            [] ty = "M" -> { P(1, "p_M_positional", <<T("M"), T("("), PA("Int"), T(","), PA("String"), T(","), PA("Float"), T(")")>>),
+                             P(1, "p_M_mixed", <<T("M"), T("("), PA("Int"), T(","), T("value"), T(":"), PA("Float"), T(","), T("key"), T(":"), PA("String"), T(")")>>),
+                             P(1, "p_M_partial", <<T("M"), T("("), PA("Int"), T(","), PA("String"), T(","), T(".."), T(")")>>) }
             [] ty = "String" -> { P(1, "p_prefix", <<T("\"s\""), T("<>"), BIND("String")>>), P(1, "p_string", <<T("\"s\"")>>) }
             [] ty = "Int" -> { P(1, "p_int", <<T("1")>>) }
             [] ty = "Bool" -> { P(1, "p_true", <<T("True")>>) }
             [] OTHER -> {})
           \* `x as y` on a plain variable is a recorded parser finding (C04 F13): only structured patterns get `as`
-          \cup (IF h.n = 0 /\ (ty \in Lists \cup Tups \cup Ress \cup Boxes \cup {"T", "String", "Int", "Bool"}) THEN { P(1, "p_as", <<Sym("PAT", ty, 1), T("as"), BIND(ty)>>) } ELSE {})
+          \cup (IF h.n = 0 /\ (ty \in Lists \cup Tups \cup Ress \cup Boxes \cup {"T", "M", "String", "Int", "Bool"}) THEN { P(1, "p_as", <<Sym("PAT", ty, 1), T("as"), BIND(ty)>>) } ELSE {})
   ELSE {}
 
 Init == /\ todo = <<>> /\ out = <<>> /\ env = <<>> /\ budget = Budget /\ sigs = <<>> /\ nv = 0 /\ phase = "header" /\ cur = 0
